@@ -123,9 +123,14 @@ def gen_dec(chk, program, slots=SLOTS, rule='GEN-DEC', with_msg=True, with_flow=
         found_rows = t.rows
         # rows after an unconditional raise never exist in events (dead code is skipped by sym)
         if with_flow:
-            chk.check(len(found_rows) == len(rows_exp), rule, f"{inst}::field-count", file=PG, line=line, func=fname,
-                      expected=len(rows_exp), found=len(found_rows),
-                      detail='number of fields constructed before the end / the unsupported-type raise')
+            if not complete and len(found_rows) > len(rows_exp):
+                # the decoder goes on past the field type at which the reference stops (support for that type added later): the fields up to there are
+                # compared below; what follows has no reference here -- no verdict, not an alarm
+                chk.unknown(rule, f"{inst}::field-count", f"the decoder constructs {len(found_rows)} fields, the reference stops after {len(rows_exp)} at a field type it does not describe", PG, line)
+            else:
+                chk.check(len(found_rows) == len(rows_exp), rule, f"{inst}::field-count", file=PG, line=line, func=fname,
+                          expected=len(rows_exp), found=len(found_rows),
+                          detail='number of fields constructed before the end / the unsupported-type raise')
         for i, er in enumerate(rows_exp):
             f = er['field']
             finst = f"{fname}::{i + 1}:{f.dbid}"
@@ -872,8 +877,11 @@ def gen_raise(chk, program, rule='GEN-RAISE'):
         if complete and not t.raises:
             chk.ok(rule, f"{fname}::no-raise", file=PG, line=t.s['line'], func=fname, nontrivial=False)
         if not complete and not any(a == len(fields) and not g for g, _, _, a in t.raises):
-            chk.violation(rule, f"{fname}::unsupported-raise", file=PG, line=t.s['line'], func=fname,
-                          expected=f"raise at unsupported field type {d.fields[len(fields)].type}", found='none')
+            if len(t.rows) > len(fields):
+                chk.unknown(rule, f"{fname}::unsupported-raise", f"no raise at field type {d.fields[len(fields)].type}: the decoder handles a type the reference does not describe", PG, t.s['line'])
+            else:
+                chk.violation(rule, f"{fname}::unsupported-raise", file=PG, line=t.s['line'], func=fname,
+                              expected=f"raise at unsupported field type {d.fields[len(fields)].type}", found='none')
     chk.unit('raise_assert_sites', n)
 
 def _assert_key(term):
